@@ -31,6 +31,7 @@
 #include "common.h"
 #include <errno.h>
 #include <string>
+#include <vector>
 #include "array.h"
 #include "types.h"
 /* mpt++/array.cpp is compiled into this translation unit (flags of the harness: -fno-sanitize=vptr).
@@ -326,6 +327,116 @@ static int item_test(unsigned mask, int n, int names)
 	}
 	return live_count == live0 ? 0 : 8;
 }
+/* ---- mpt::reference_array<T> (mptcore/array.h): elements are reference<T>, the traits have a finaliser only.
+ * rtest <size> <script>: T is a reference-counted object of <size> bytes (8, 16, 24); the script is a comma separated
+ * list of  i<pos>.<id> insert(pos, new T(id)) | s<pos>.<id> set(pos, new T(id)) | r<n> resize(n) | v<n> reserve(n)
+ * | c clear() | c<id> clear(object id) | k compact() | n count().  Every step is compared with a plain list of ids
+ * (0 = empty slot): result, length, every element; at the end the array is destroyed and every object must have been
+ * deleted exactly once (a second delete / a use after delete is also an ASan report).  Result "ok" or "bad<code>@<step>". */
+static int robj_state[256];          /* 0 unused, 1 live, 2 deleted */
+static int robj_err;
+template <size_t N> struct RObj {
+	int refs, id;
+	uint8_t pad[N - 8];
+	RObj(int i) : refs(1), id(i) { if (robj_state[i & 255]) robj_err = 1; robj_state[i & 255] = 1; }
+	uintptr_t addref() { return ++refs; }
+	void unref()
+	{
+		if (refs <= 0 || robj_state[id & 255] != 1) { robj_err = 2; return; }
+		if (--refs) return;
+		robj_state[id & 255] = 2;
+		delete this;
+	}
+};
+template <size_t N> static int ref_test(const char *sc)
+{
+	typedef RObj<N> O;
+	int step = 0, code = 0, i;
+	std::vector<int> want;
+	memset(robj_state, 0, sizeof(robj_state));
+	robj_err = 0;
+	{
+		mpt::reference_array<O> arr;
+		while (*sc && !code) {
+			char op = *sc++;
+			char *end;
+			long a = 0, id = 0;
+			bool have = *sc && *sc != ',';
+			if (have) { a = strtol(sc, &end, 10); sc = end; }
+			if (*sc == '.') { id = strtol(sc + 1, &end, 10); sc = end; }
+			if (*sc == ',') ++sc;
+			++step;
+			long len = (long) want.size();
+			if (op == 'i' || op == 's') {
+				O *o = new O((int) id);
+				long pos = a;
+				bool expect, r;
+				if (op == 'i') {
+					if (pos < 0) pos += len;
+					expect = pos >= 0;
+					if (expect) {
+						if (pos > len) want.resize(pos, 0);
+						want.insert(want.begin() + pos, (int) id);
+					}
+					r = arr.insert(a, o);
+				} else {
+					if (pos < 0) pos += len;
+					expect = pos >= 0 && pos < len;
+					if (expect) want[pos] = (int) id;
+					r = arr.set(a, o);
+				}
+				if (!r) o->unref();
+				if (r != expect) code = 1;
+			}
+			else if (op == 'r' || op == 'v') {
+				bool expect = a >= 0 || a + len >= 0;
+				bool r = op == 'r' ? arr.resize(a) : arr.reserve(a);
+				if (op == 'r' && a >= 0) want.resize(a, 0);
+				if (r != expect) code = 2;
+			}
+			else if (op == 'c') {
+				long n = 0, r;
+				O *match = 0;
+				for (i = 0; i < len; i++) {
+					if (!want[i] || (have && want[i] != a)) continue;
+					if (have) match = arr.get(i)->instance();
+					want[i] = 0; ++n;
+				}
+				r = (have && !match) ? 0 : arr.clear(match);
+				if (r != n) code = 3;
+			}
+			else if (op == 'k') {
+				std::vector<int> c;
+				for (i = 0; i < len; i++) if (want[i]) c.push_back(want[i]);
+				c.resize(len, 0);
+				want = c;
+				arr.compact();
+			}
+			else if (op == 'n') {
+				long n = 0;
+				for (i = 0; i < len; i++) if (want[i]) ++n;
+				if (arr.count() != n) code = 4;
+			}
+			else code = 9;
+			if (code) break;
+			if (arr.length() != (long) want.size()) { code = 5; break; }
+			for (i = 0; i < (long) want.size(); i++) {
+				O *o = arr.get(i)->instance();
+				if ((o ? o->id : 0) != want[i]) { code = 6; break; }
+				if (o && (o->refs != 1 || robj_state[o->id & 255] != 1)) { code = 7; break; }
+			}
+			for (i = 1; i < 256 && !code; i++) {       /* an object that left the array is gone, the others live */
+				bool in = false;
+				for (size_t k = 0; k < want.size(); k++) if (want[k] == i) in = true;
+				if (robj_state[i] && (robj_state[i] == 1) != in) code = 8;
+			}
+			if (robj_err) code = 10 + robj_err;
+		}
+	}
+	if (code) return code * 1000 + step;
+	for (i = 0; i < 256; i++) if (robj_state[i] == 1) return 20000 + i;     /* element alive after the last handle went */
+	return robj_err ? 10 + robj_err : 0;
+}
 /* unique_array<T>::insert(pos) (op 'i') / resize(n) (op 'r') on the array that owns handle h */
 template <size_t N> static bool ua_op(int h, char op, long arg)
 {
@@ -393,6 +504,15 @@ static void run_case(int ntok, char **tok)
 			unsigned mask = vh_int(tok[t++]);
 			int n = vh_int(tok[t++]), names = vh_int(tok[t++]), r = item_test(mask, n, names);
 			if (r) vh_tok("bad%d", r); else vh_tok("ok");
+			evlog.clear();
+			dump();
+			continue;
+		}
+		if (!strcmp(op, "rtest")) {
+			size_t n = vh_int(tok[t++]);
+			const char *sc = tok[t++];
+			int r = n == 8 ? ref_test<8>(sc) : n == 16 ? ref_test<16>(sc) : ref_test<24>(sc);
+			if (r) vh_tok("bad%d@%d", r / 1000, r % 1000); else vh_tok("ok");
 			evlog.clear();
 			dump();
 			continue;
